@@ -481,3 +481,16 @@ Example prog_example :
   | None => False
   end.
 Proof. vm_compute. split; reflexivity. Qed.
+
+(* the hypotheses of the BufReader / programme theorems are satisfiable: mp4san's own stack,
+   futures BufReader(32) over SeekSkipAdapter over a Pending cursor, and over an AsyncSkip-native reader *)
+Example mp4san_stack_core :
+  sched_indep_core (afut_buf 32 (aseek_adapter (pending_seeker (std_cursor U64MAXN)))) /\
+  sched_indep_core (afut_buf 32 (pending_reader (cursor_reader U64MAXN))) /\
+  len_indep (afut_buf 32 (afwd (pending_reader (cursor_reader U64MAXN)))).
+Proof.
+  split; [|split].
+  - apply afut_buf_core, aseek_adapter_core, std_cursor_query_pure.
+  - apply afut_buf_core, pending_reader_core.
+  - apply afut_buf_len, afwd_len, pending_reader_core.
+Qed.
